@@ -18,7 +18,8 @@ import sqlprog as sp
 from enc import K, N, jsonable
 from iterprog import exc_name
 
-THEOREMS = ["C08_accepted_iteration_program_executes", "C08_sql_factories_return_compilable_shape"]
+THEOREMS = ["C08_accepted_iteration_program_executes", "C08_sql_factories_return_compilable_shape",
+            "C08_sql_program_is_conformed"]
 HDR = "From DR Require Import Model.CheckMulti.\nOpen Scope Z_scope.\n"
 
 
